@@ -37,8 +37,8 @@ impl Spec for FifoSpec {
     fn init(&self) -> Vec<u64> {
         Vec::new()
     }
-    fn step(&self, s: &Vec<u64>, op: &QOp) -> Option<Vec<u64>> {
-        match op {
+    fn step(&self, s: &Vec<u64>, op: &QOp) -> Vec<Vec<u64>> {
+        let r = match op {
             QOp::Push(v, PushRes::Accepted) => {
                 if s.len() < self.cap {
                     let mut n = s.clone();
@@ -66,7 +66,8 @@ impl Spec for FifoSpec {
             QOp::Pop(None) => {
                 if s.is_empty() || self.spurious_fail { Some(s.clone()) } else { None }
             }
-        }
+        };
+        r.into_iter().collect()
     }
 }
 
